@@ -251,6 +251,21 @@ func run(env *drive.Env) error {
 				r := rerun(w, w.B, blk, K+1, rnd)
 				r["ev"], r["blk"], r["k"], r["on"], r["errc"] = "Rerun", num, K, "B", errClass(fmt.Sprint(r["err"]))
 				env.Emit(r)
+				// a fork switch on the importing node: it is shown a sibling branch that replaces its last Rg blocks (built by
+				// a second builder), so that importing the builder's block makes it switch back and re-adopt them
+				if ab.Rg > 0 && num >= uint64(ab.Rg)+1 {
+					fk := map[string]interface{}{"ev": "Fork", "blk": num, "back": ab.Rg, "err": "", "errc": "", "switched": false}
+					branch, err := w.ForkBranch(num-1-uint64(ab.Rg), 1)
+					if err != nil {
+						fk["err"], fk["errc"] = err.Error(), "fork_build"
+					} else {
+						if err := w.B.Bc.InsertChain(branch); err != nil {
+							fk["err"], fk["errc"] = err.Error(), errClass(err.Error())
+						}
+						fk["switched"] = w.B.Bc.CurrentBlock().Hash() == branch[len(branch)-1].Hash()
+					}
+					env.Emit(fk)
+				}
 				imp := map[string]interface{}{"ev": "Imported", "blk": num, "err": ""}
 				if err := w.B.Bc.InsertChain(types.Blocks{blk}); err != nil {
 					imp["err"] = err.Error()
